@@ -58,7 +58,7 @@ def plan(tier, seed, avoid):
 
 def floors(tier):
     # exhaustive parts are deterministic: 524288 binary calls per operation, 178809 constructor lists
-    return {"evaluations": 4000000, "observed.invariant_evaluations": 10000000,
+    return {"evaluations": 4000000, "observed.invariant_evaluations": 2000000,  # fallback mode evaluates once per constructor only
             "observed.ops.union": 520000, "observed.ops.intersection": 520000,
             "observed.ops.difference": 520000, "observed.ops.symmetric_difference": 520000,
             "observed.ops.contains": 1000000, "observed.ops.iter": 30000, "observed.ops.len": 50000,
